@@ -16,7 +16,7 @@ import ast
 from dataclasses import dataclass
 from typing import Optional
 
-from ..core.repo import call_name, dotted, is_const, kwarg, unparse
+from ..core.repo import call_name, definitions, dotted, is_const, kwarg, unparse
 
 ROW, COL = "row", "col"
 
@@ -426,6 +426,21 @@ class KAT:
             if cn.startswith("torch.") and idx is None:
                 mode = "ij"
             vals = [self.ev(a) for a in args[:2]]
+            if len(args) == 1 and isinstance(args[0], ast.Starred):
+                # meshgrid(*[np.arange(n) for n in shape], …): one coordinate vector per extent of `shape`, in order
+                lst = args[0].value
+                if isinstance(lst, ast.Name):
+                    ds = [d for d in definitions(self.fn, lst.id) if isinstance(d, ast.AST)]
+                    lst = ds[0] if len(ds) == 1 else None
+                vals = [None, None]
+                if isinstance(lst, (ast.ListComp, ast.GeneratorExp)) and len(lst.generators) == 1 and isinstance(lst.generators[0].target, ast.Name) and not lst.generators[0].ifs \
+                        and isinstance(lst.elt, ast.Call) and (call_name(lst.elt) or "").split(".")[-1] == "arange" and len(lst.elt.args) == 1 \
+                        and isinstance(lst.elt.args[0], ast.Name) and lst.elt.args[0].id == lst.generators[0].target.id:
+                    sh = self.ev(lst.generators[0].iter)
+                    if isinstance(sh, Seq) and len(sh.items) == 2 and all(isinstance(i, Ext) for i in sh.items):
+                        vals = [Comp(i.axis, None, False) for i in sh.items]
+                elif isinstance(lst, (ast.List, ast.Tuple)) and len(lst.elts) == 2:
+                    vals = [self.ev(x) for x in lst.elts]
             out = []
             for k, v in enumerate(vals):
                 vary = (-2 if k == 0 else -1) if mode == "ij" else (-1 if k == 0 else -2)
